@@ -39,4 +39,11 @@ for s in ("i8", "u16", "i16"): SYMS += otsu(s)
 SYMS.append(Sym(H, r"threshold_binary\(src_view, dst_view, (\(threshold \*[^;,]*), direction\);", "otsu_rescale_u16",
                 [("threshold", "std::size_t"), ("min", "uint16_t"), ("max", "uint16_t")], ret="std::size_t", expr=True,
                 doc="otsu_impl: final threshold for unsigned 16-bit sources, before the conversion to the result channel type"))
+# threshold_adaptive: the two comparison lambdas (pixel against the local threshold surface minus the constant)
+AA = r"\[max_value, constant\]\(source_channel_t px, source_channel_t threshold\) -> result_channel_t"
+for s_, d_ in (("u8", "u8"), ("u16", "u16")):
+    for name, which in (("adapt_reg", 0), ("adapt_inv", 1)):
+        SYMS.append(Sym(H, AA, "%s_%s_%s" % (name, s_, d_),
+                        [("px", CT[s_]), ("threshold", CT[s_]), ("max_value", CT[d_]), ("constant", CT[d_])], ret=CT[d_], which=which,
+                        doc="threshold_adaptive functor %s, source %s, result %s" % (name, CT[s_], CT[d_])))
 NAMESPACE = "GilVerif.Gen.C16"
